@@ -8,7 +8,7 @@
 From Coq Require Import String.
 From Coq Require Import List Ascii ZArith Bool.
 From CGV Require Import Base.PyBase Base.PyVal Base.NxGraph Dialect.DialectImpl Reader.ReaderImpl Reader.Grammar
-     Reader.ReaderCheck Reader.Lin Reader.ReaderAst Reader.ReaderX Reader.ReaderXAst Gen.ReaderEnumGen.
+     Reader.ReaderCheck Reader.Lin Reader.ReaderAst Reader.ReaderX Reader.ReaderXAst Reader.ReaderG2 Reader.ReaderG2Ast Gen.ReaderEnumGen.
 Import ListNotations.
 
 Definition fo_none : float_oracle := fun _ => None.
@@ -46,4 +46,17 @@ Lemma C04_xflat_small_list :
 Proof. vm_compute. reflexivity. Qed.
 Lemma C04_flat_small_list :
   forallb (fun a => cls_double_close a || flat_ok fo_none a) small_c04 = true.
+Proof. vm_compute. reflexivity. Qed.
+
+(** the decidable side condition [units_ok] of the AST-level C05 theorem ([reader_sim_units]) holds for every
+    enumerated AST outside the three open defect classes in which every branch that carries a multiplier is a
+    simple chain (the one shape it does not express: a multiplier 1, or the one nested shape the code
+    handles, on a branch with nested branches) *)
+Definition nonsimple_mult (a : chain) : bool :=
+  existsb (fun s => is_some (b_mult (snd s)) && negb (simple_chain (b_chain (snd s)))) (sites a).
+Lemma C05_units_cover_small_list :
+  forallb (fun a => negb (wf fo_none a && Nat.eqb (class_C05 true a) 0 && negb (nonsimple_mult a)) || units_ok fo_none a) small_c05 = true.
+Proof. vm_compute. reflexivity. Qed.
+Lemma C05_units_cover_small_nonvacuous :
+  (2000 <=? length (filter (fun a => wf fo_none a && units_ok fo_none a && has_branch_mult a) small_c05))%nat = true.
 Proof. vm_compute. reflexivity. Qed.
